@@ -75,7 +75,7 @@ def model_check(ctx, thorough):
         (3, 8, "subset_right", "ObserversAgree"),
     ]
     for n, w, bug, inv in guards:
-        r = vlib.tlc("MC_BitfieldImpl", "MC_BitfieldImpl_guard_%s.cfg" % inv, workers=4, env=mc_env(n, w, bug, n <= 3), timeout=900)
+        r = vlib.tlc("MC_BitfieldImpl", "MC_BitfieldImpl_guard_%s.cfg" % inv, workers=4, env=mc_env(n, w, bug, n <= 3), timeout=900, expect=inv)
         if inv not in r.invariant_violated:
             raise vlib.Infra("vacuity guard: Bug=%s N=%d W=%d did not violate %s" % (bug, n, w, inv))
         ctx.extra.setdefault("vacuity_guards", []).append(
